@@ -97,6 +97,9 @@ def normalise(value: Any, default: Optional[Callable[[Any], Any]] = None, depth:
     return normalise(default(value), default, depth + 1)
 
 
+UNDECODABLE = '{"jsonrpc": '      # a real text json.loads rejects; the wire model's loader rejects it as well
+
+
 class Wire:
     """Either the value-level wire model (symbolic side) or the real json text layer (`env.real`)."""
 
@@ -109,7 +112,7 @@ class Wire:
     def loader(self, text, cls=None, **kw):
         if self.real:
             return json.loads(text, cls=cls, **kw)
-        if self.loader_fault == 'decode':
+        if self.loader_fault == 'decode' or (isinstance(text, str) and text == UNDECODABLE):
             raise json.JSONDecodeError('stub', 'x', 0)
         if self.loader_fault == 'value':
             raise ValueError('Exceeds the limit (4300 digits) for integer string conversion')
